@@ -107,7 +107,7 @@ def wellformed(r):
 def validate(recs, tag):
     """TLC judges every clause of every trace; returns {id: [failed clause names]} and TLC results"""
     d = scratch("c08v_" + tag)
-    nchunk = 4 if len(recs) > 40 else 1
+    nchunk = 12 if len(recs) > 40 else 1
     results = []
     jobs = []
     for n in range(nchunk):
@@ -119,13 +119,13 @@ def validate(recs, tag):
             json.dump({"traces": ch}, fh)
 
         def job(tf=tf, ch=ch):
-            res = tlc.run_tlc("Trace_Topology", "Trace_Topology.cfg", workers=4, timeout=1800, env_extra={"TRACE_FILE": tf}, check=False)
+            res = tlc.run_tlc("Trace_Topology", "Trace_Topology.cfg", workers=1, timeout=1800, env_extra={"TRACE_FILE": tf}, check=False)
             return res, ch
 
         jobs.append(job)
     failed = {}
     tlcres = []
-    for res, ch in parallel_jobs(jobs, nproc=4):
+    for res, ch in parallel_jobs(jobs, nproc=12):
         tlcres.append(res)
         if not res.ok:
             raise MachineryError("Trace_Topology run failed (violated=%s):\n%s" % (res.violated, res.out[-3000:]))
